@@ -1,6 +1,7 @@
 package harness
 
 import (
+	"bytes"
 	"encoding/base64"
 	"encoding/json"
 	"fmt"
@@ -281,6 +282,11 @@ func (v *c11Vec) rejectKey() (string, string) {
 			m := e.Ct.Mod
 			if e.Ct.Made == "junk" {
 				m = "forged"
+			} else if e.Ct.Made != "gcm" {
+				m = e.Ct.Made + "-cipher-value"
+			}
+			if e.Em != "aes128-gcm" { // round 8: the identifier is a dimension of the case (the keys of aes128-gcm stay as they were)
+				return fmt.Sprintf("why=%s.gcm:alg=%s:mod=%s", lvl, e.Em, m), "modified AES-GCM cipher value under " + xeAlgURI(e.Em)
 			}
 			return fmt.Sprintf("why=%s.gcm:mod=%s", lvl, m), "modified AES-GCM cipher value"
 		}
@@ -421,6 +427,11 @@ func c11Execute(v *c11Vec, rng *rand.Rand) *c11Run {
 		panic("harness: lexical form " + v.Lex.name() + " changes the element tree: " + err.Error())
 	}
 	r.XML = string(xmlb)
+	if v.Fam == "gcmid" {
+		if err := c11GcmIDSelfCheck(ctx, v, root); err != nil {
+			panic("harness: " + err.Error())
+		}
+	}
 	var got []byte
 	var octets []byte
 	if v.Key.T == "bytes" || v.Key.T == "string" {
@@ -955,14 +966,14 @@ func TestC11(t *testing.T) {
 		}
 	}
 	if len(refuted) == len(c11DevInvariants) {
-		rep.Note("model self-test: with MgfErrorSlicesIdentifier and RetrievalMethod = xpath on (XmlEnc_C11dev.cfg) TLC refutes NoIdentifierSlice, NoPathPanic and NoUnboundedRecursion (Total, cause by cause)")
+		rep.Note("model self-test: with MgfErrorSlicesIdentifier, RetrievalMethod = xpath and GcmAsCbc on (XmlEnc_C11dev.cfg) TLC refutes NoIdentifierSlice, NoPathPanic and NoUnboundedRecursion (Total, cause by cause) and GcmTamperRejected")
 	}
 	// vacuity of the new dimensions, counted by what the vectors REQUIRE to be built (never by what was observed)
 	famCases := map[string]int{}
 	for _, v := range vecs {
 		famCases[v.Fam]++
 	}
-	for _, f := range []string{"ekmgf", "keyinfo"} {
+	for _, f := range []string{"ekmgf", "keyinfo", "gcmid"} {
 		if famCases[f] == 0 {
 			rep.Break("vacuous: no %s vectors", f)
 		}
@@ -973,7 +984,30 @@ func TestC11(t *testing.T) {
 }
 
 // the causes of Total that XmlEnc_C11dev.cfg must refute
-var c11DevInvariants = []string{"NoIdentifierSlice", "NoPathPanic", "NoUnboundedRecursion"}
+// round 8: and GcmTamperRejected under GcmAsCbc (the identifier dimension of the GCM tamper family is not vacuous)
+var c11DevInvariants = []string{"NoIdentifierSlice", "NoPathPanic", "NoUnboundedRecursion", "GcmTamperRejected"}
+
+// c11GcmIDSelfCheck: family gcmid hands the code cipher values made by crypto/cipher AES-GCM under the identifier's key
+// size.  The instrument is checked with the reference alone (never with the code under test): the unmodified value opens
+// to the plaintext of the case under the reference implementation of that identifier, every other value does not.
+func c11GcmIDSelfCheck(ctx *xeCtx, v *c11Vec, root *etree.Element) error {
+	alg := refBlockByName(v.El.Em)
+	if alg == nil || alg.Mode != "gcm" || v.Key.T != "bytes" || v.Key.Len != alg.Key {
+		return fmt.Errorf("family gcmid: %s / key %s is no AES-GCM identifier with its key", v.El.Em, v.Key.name())
+	}
+	pt, err := refDecrypt(ctx.val(v.Key.ID, v.Key.Len), root)
+	genuine := v.El.Ct.Made == "gcm" && v.El.Ct.Mod == "none" && v.El.Len == 12+v.El.Ct.Body+16
+	switch {
+	case genuine && (err != nil || !bytes.Equal(pt, ctx.val(v.El.Ct.Pt.ID, v.El.Ct.Pt.Len))):
+		return fmt.Errorf("family gcmid: the unmodified %s cipher value does not open under the reference implementation: %v", v.El.Em, err)
+	case !genuine && err == nil:
+		return fmt.Errorf("family gcmid: the reference implementation opens a modified %s cipher value (made %s, mod %s)", v.El.Em, v.El.Ct.Made, v.El.Ct.Mod)
+	}
+	if cv, err := xeCipherValue(root); err != nil || len(cv) != v.El.Len {
+		return fmt.Errorf("family gcmid: CipherValue of %d octets written, the vector says %d (%v)", len(cv), v.El.Len, err)
+	}
+	return nil
+}
 
 // the ways an element is delivered to a service provider: EncryptedKey inside KeyInfo, moved behind the EncryptedData,
 // the document as the vector describes it (families with references)
